@@ -756,7 +756,7 @@ func TestVerif_C14(t *testing.T) {
 	// of them cannot be written however often it is tried (every statement carrying its id
 	// fails). The batch fails as a whole: afterwards the database answers as before the batch
 	// (or, had a retry succeeded, as after the whole batch) - never something in between.
-	nFlush := vk.N(3, 12)
+	nFlush := vk.N(8, 24)
 	vk.ParallelW(12, nFlush, func(i int) {
 		r := vk.RNG("C14/shutdown-flush", i)
 		path := filepath.Join(dir, fmt.Sprintf("hf%d.db", i))
@@ -773,11 +773,28 @@ func TestVerif_C14(t *testing.T) {
 		var seed uint32
 		db.QueryRowContext(ctx, "select seed from xxhash_seed").Scan(&seed)
 		g := sqlHistoryGen(r)
-		g.BigEvery, g.NoDeletion, g.NoEphemeral = 0, true, true
+		g.BigEvery, g.NoDeletion, g.NoEphemeral = 0, i%2 == 0, true
 		before := vk.NewSQLModel()
 		var pre, batch []*mocrelay.Event
 		for k := 0; k < 3; k++ {
 			pre = append(pre, g.Next())
+		}
+		// in every second case the buffered events hold a deletion request for a stored event:
+		// what it deletes is part of its batch like everything else
+		var crafted *mocrelay.Event
+		if i%2 == 1 {
+			for _, x := range pre {
+				if x.Kind != 5 && vk.ClassOf(x.Kind) != vk.Ephemeral {
+					crafted = vk.Seal(&mocrelay.Event{Kind: 5, Pubkey: x.Pubkey, CreatedAt: x.CreatedAt + 5, Content: fmt.Sprintf("c14 flush deletion %d", i), Tags: []mocrelay.Tag{{"e", x.ID}}})
+					if vk.ClassOf(x.Kind) == vk.Addressable {
+						if _, has := vk.DValue(x); has {
+							crafted.Tags = append(crafted.Tags, mocrelay.Tag{"a", vk.AddrTag(x)})
+							vk.Seal(crafted)
+						}
+					}
+					break
+				}
+			}
 		}
 		if err := insertEvents(ctx, db, seed, pre); err != nil {
 			rep.Inconclusive("C14: could not prepare the shutdown-flush case: " + err.Error())
@@ -786,8 +803,13 @@ func TestVerif_C14(t *testing.T) {
 		before.InsertBatch(pre)
 		s := vk.StartSession(ctx, h, 64)
 		n := 3 + r.IntN(5)
+		craftAt := r.IntN(n)
 		for k := 0; k < n; k++ {
 			e := g.Next()
+			if crafted != nil && k == craftAt {
+				e = crafted
+				rep.Count("shutdown_flushes_with_a_deletion_request_for_a_stored_event", 1)
+			}
 			batch = append(batch, e)
 			s.Put(&mocrelay.ClientEventMsg{Event: e})
 			s.Get()
